@@ -126,7 +126,7 @@ Lemma ex_values : consumer ex_params CollectThenSort ex_l = OList [19; 37; 74; 9
                         /\ consumer ex_params EmitInIterationOrder ex_l' = OList [19; 74; 37; 91].
 Proof. vm_compute. repeat split. Qed.
 
-Lemma ex_inventory : (10 <=? Z.of_nat (length sites)) = true
+Lemma ex_inventory : (5 <=? Z.of_nat (length sites)) = true
   /\ existsb (fun s => shape_eqb (classification s) CollectHash) sites = true
   /\ existsb (fun s => shape_eqb (classification s) AnyAll) sites = true.
 Proof. vm_compute. repeat split. Qed.
